@@ -1,7 +1,8 @@
 (* Proofs/QueueMonitor_proofs.v — the wake-up discipline of pubsub.Queue (Model/QueueMonitor.v) and what
    follows from it by the generic theorems of Conc/Monitor.v.  Stdlib + lia; no axioms. *)
 From FunV Require Import Base.Tac Conc.Monitor Model.QueueMonitor Proofs.QueueMonitor_exec.
-From Coq Require Import Floats.
+From Coq Require Import PrimFloat.
+From Coq Require Uint63.
 Local Open Scope Z_scope.
 
 (* ================================================================== a generic lemma: a monotone flag whose
